@@ -150,6 +150,17 @@ def record(binary, js, outdir, timeout=40):
         return list(ex.map(one, range(len(js))))
 
 
+def planner_hooks_present():
+    """Is the guarded hook commit for the planners in the tree under test?"""
+    try:
+        h = open(os.path.join(vlib.REPO, "src/ompl/util/VerifHooks.h")).read()
+        p = open(os.path.join(vlib.REPO, "src/ompl/geometric/planners/rrt/src/pRRT.cpp")).read()
+        q = open(os.path.join(vlib.REPO, "src/ompl/geometric/planners/sbl/src/pSBL.cpp")).read()
+    except OSError:
+        return False
+    return "ACQUIRE_SHARED" in h and "emitLock" in h and "pRRT.nnLock" in p and "pSBL.loopLock" in q
+
+
 def gate(ck, msg):
     """Vacuity gate.  A run that has already produced a verdict against the tree under test is red anyway: its gates
     are recorded instead of raised (a changed tree may well take other paths); a green run must meet every gate."""
@@ -265,6 +276,17 @@ def planner_traces(ck, tier, binary):
     seen = set()
     key_runs = {}
     alljobs = []
+    # a run that had to be stopped by the watchdog is a verdict only together with a recorded cause in the same run
+    # (a mutex still owned when its thread ended: the next solve() can never lock it); a bare timeout is a machinery
+    # failure - no wall-clock verdicts
+    causes = {}
+    for name in sorted(reports):
+        for b in reports[name]:
+            jk = json.dumps(index[name][b["line"] - 1], sort_keys=True)
+            causes.setdefault(jk, set()).update(b["failed"])
+    for jk, cl in causes.items():
+        if "Hang" in cl and not (cl & {"mutexOwnedAtThreadEnd", "unlockByNonOwner", "unlockOfUnlockedMutex", "dataRace"}):
+            raise FrameworkError("planner scenario timed out without a recorded cause (loaded machine?): %s" % jk)
     for name in sorted(reports):
         rows = vlib.read_ndjson(merged[name])
         allrows += rows
@@ -484,7 +506,7 @@ class Models:
         # ---- small sharing models
         for fixed in ("FALSE", "TRUE"):
             tag = "fixed" if fixed == "TRUE" else "pinned"
-            c = {"Trees": W2 if not big else W3, "MaxCost": 2, "FixIter": fixed}
+            c = {"Trees": W2 if not big else W3, "MaxCost": 2 if not big else 1, "FixIter": fixed}   # 3 trees x 2 costs: > 15 min
             self.submit(("cforest", tag, "safety"), "conc/CForestShare",
                         _cfg("cforest-%s-safe" % tag, "FairSpec", c, ["TypeOK", "QueuesOwnTheirStates", "PopNeverEmpty", "LocksHeld"],
                              ["BestCostMonotone", "Termination"]), coverage=True)
@@ -497,7 +519,7 @@ class Models:
                         _cfg("aps-%s-best" % tag, "Spec", c, ["BestCostIsBestPath"], ["BestCostMonotone"]))
             c = {"Threads": W2, "Calls": 2, "Size": 2, "Atomic": fixed}
             self.submit(("goalstates", tag, "IndexInRange"), "conc/GoalStatesSample",
-                        _cfg("goalstates-%s" % tag, "Spec", c, ["IndexInRange", "TypeOK"]), coverage=(fixed == "TRUE"))
+                        _cfg("goalstates-%s" % tag, "Spec", c, ["IndexInRange", "TypeOK"]), coverage=True)
 
     def judge(self, ck, feats):
         res = {k: f.result() for k, f in self.futs.items()}
@@ -559,14 +581,16 @@ class Models:
             if base in ("fixed", "sharedMutex") and r.violated:
                 raise FrameworkError("model %s: the corrected variant '%s' violates %s (%s)" % (model, tag, what, r.violated))
         ck.set("model_counterexamples", found)
-        # every action of every model was taken (TLC coverage of the runs that request it)
-        for k, r in res.items():
-            if r.coverage:
-                dead = sorted(a for a, (taken, _g) in r.coverage.items() if taken == 0 and a not in ("Init", "Terminated"))
-                variant_only = {"LockShared", "UnlockShared", "LockLC1", "Enter", "UnlockLC1", "LockLC2", "Leave", "UnlockLC2",
-                                "PBestReset", "PExpandRead", "PLockExpand", "PExpandLocked", "SPairValid",
-                                "Load1", "Store1", "Index", "Load2", "Store2", "FetchAdd", "MResetLate", "SNextPair", "LockAIter"}
-                dead = [a for a in dead if a not in variant_only]
-                if dead:
-                    raise FrameworkError("vacuity gate: actions of %s never taken: %s" % ("-".join(k), dead))
+        # every action of every model was taken in some run of that model (TLC coverage; an action that belongs to one
+        # variant only is covered by that variant's run)
+        per_model = {}
+        for (model, _tag, _what), r in res.items():
+            for a, (taken, _g) in r.coverage.items():
+                per_model.setdefault(model, {}).setdefault(a, 0)
+                per_model[model][a] += taken
+        for model, acts in sorted(per_model.items()):
+            dead = sorted(a for a, n in acts.items() if n == 0 and a not in ("Init", "Terminated"))
+            if dead:
+                raise FrameworkError("vacuity gate: actions of model %s never taken in any variant: %s" % (model, dead))
+        ck.set("model_actions_covered", {m: len(a) for m, a in sorted(per_model.items())})
         ck.set("protocol_models", sorted({"%s/%s" % (m, t) for (m, t, _w) in res}))
